@@ -49,6 +49,33 @@ def without_reads(calls: list[dict[str, Any]]) -> list[dict[str, Any]]:
     return [dict(calls[i], op=fix(calls[i]["op"])) for i in keep]
 
 
+def torn_readers(drv: Any, req: dict[str, Any]) -> list[str]:
+    """For a history whose writes alone linearize: the op names of the read calls that, each taken ALONE with the writes, still
+    have no linearization - the reads that saw a state that never existed."""
+    calls = req["calls"]
+    reads = [i for i, c in enumerate(calls) if c["op"]["op"].startswith("get")]
+    out: list[str] = []
+    for r_ in reads:
+        keep = [i for i, c in enumerate(calls) if not c["op"]["op"].startswith("get") or i == r_]
+        new_index = {old: new for new, old in enumerate(keep)}
+
+        def fix(op: dict[str, Any]) -> dict[str, Any]:
+            o = dict(op)
+            for k in ("sid", "tid"):
+                v = o.get(k)
+                if isinstance(v, dict) and "ref" in v:
+                    o[k] = {"ref": new_index.get(v["ref"], v["ref"])}
+            return o
+
+        sub = dict(req, calls=[dict(calls[i], op=fix(calls[i]["op"])) for i in keep])
+        if not drv.ask(sub).get("ok"):
+            out.append(calls[r_]["op"]["op"])
+    return sorted(set(out))
+
+
+TRIAL_READERS = {"getAllTrials", "getTrial", "getBestTrial"}   # the getters F16 is about (assembled from several SELECTs)
+
+
 def erase(j: Any) -> Any:
     if isinstance(j, dict):
         ent = "number" in j or "name" in j
@@ -384,6 +411,11 @@ def _worker(args: tuple[str, list[tuple[int, dict[str, Any], int | None]], str, 
                     req2 = dict(res["req"], calls=without_reads(res["req"]["calls"]))
                     ans2 = drv.ask(req2) if len(req2["calls"]) < len(res["req"]["calls"]) else {"ok": False}
                     sub = "torn-read" if ans2.get("ok") else "not-linearizable"
+                    if sub == "torn-read":
+                        rd = torn_readers(drv, res["req"])
+                        rec["torn_readers"] = rd
+                        if not rd or not set(rd) <= TRIAL_READERS:
+                            sub = "torn-read-other"   # not the family of known finding F16: stays unlisted
                     if sub == "not-linearizable":
                         # Two successful set_trial_param calls on one parameter name of ONE study with different distribution
                         # classes on two trials: impossible in every sequential order whatever else happened (the second
